@@ -364,7 +364,7 @@ impl
     )> for SequenceOrSet
 {
     fn from(
-        mut value: (
+        value: (
             (
                 Vec<SequenceComponent>,
                 Option<ExtensionMarker>,
@@ -373,11 +373,18 @@ impl
             Option<Vec<Constraint>>,
         ),
     ) -> Self {
-        let index_of_first_extension = value.0 .0.len();
-        value.0 .0.append(&mut value.0 .2.unwrap_or_default());
         let mut components_of = vec![];
         let mut members = vec![];
         for comp in value.0 .0 {
+            match comp {
+                SequenceComponent::Member(m) => members.push(m),
+                SequenceComponent::ComponentsOf(c) => components_of.push(c),
+            }
+        }
+        // `COMPONENTS OF` entries are not members (the linker copies the included components in
+        // later): the first extension addition is the member that follows the root *members*
+        let index_of_first_extension = members.len();
+        for comp in value.0 .2.unwrap_or_default() {
             match comp {
                 SequenceComponent::Member(m) => members.push(m),
                 SequenceComponent::ComponentsOf(c) => components_of.push(c),
